@@ -361,6 +361,17 @@ class TaggedUnionConverter(UnionConverter):
             except AttributeError:
                 raise TypeError(f"Tag '{self.tag}' not found inside type '{ty}'") from None
 
+    def _variant(self, tag: t.Any) -> int:
+        """
+        Index of the variant selected by ``tag``. Raises ``KeyError`` (unknown tag) or ``TypeError`` (unhashable tag).
+        Tags are literal values, as for ``Literal``: ``1.0`` or ``True`` is not the tag ``1`` (a plain lookup would take them).
+        """
+        i = self.tag_map[tag]
+        decl = getattr(self.types[i], self.tag)
+        if not (type(decl) is type(tag) or (isinstance(tag, type(decl)) and not isinstance(tag, bool))):
+            raise KeyError(tag)
+        return i
+
     def tag_expected(self) -> str:
         """Return a string list of the expected/supported tags"""
         return list_phrase(tuple(map(repr, self.tag_map.keys())))
@@ -424,7 +435,7 @@ class TaggedUnionConverter(UnionConverter):
                 raise ParseInterrupt()
             tag, val = val[t_r], val[c_r]
         try:
-            i = self.tag_map[tag]
+            i = self._variant(tag)
         except (KeyError, TypeError):  # unknown or unhashable tag
             raise ParseInterrupt()
         return self.converters[i].try_convert(val)
@@ -452,7 +463,7 @@ class TaggedUnionConverter(UnionConverter):
                 return WrongTypeError(f"mapping with keys '{t_r}' and '{c_r}'", val)
             tag, val = val[t_r], val[c_r]
         try:
-            i = self.tag_map[tag]
+            i = self._variant(tag)
         except (KeyError, TypeError):  # unknown or unhashable tag
             return WrongTypeError(f"tag '{self.tag}' one of {self.tag_expected()}", tag)
         return self.converters[i].collect_errors(val)
